@@ -31,7 +31,7 @@ pub fn channel_of(a: &Obs, b: &Obs) -> Option<&'static str> {
 pub fn first_divergence(reference: &HostLog, log: &HostLog, host: usize) -> Option<Divergence> {
     for o in &log.obs {
         // the reference observation of an input is its *first* expansion on the reference host
-        let Some(r) = reference.obs.iter().find(|r| r.input == o.input) else { continue };
+        let Some(r) = reference.obs.iter().find(|r| r.input == o.input && r.token_built == o.token_built) else { continue };
         if let Some(ch) = channel_of(r, o) {
             return Some(Divergence { host, pos: o.pos, input: o.input, channel: ch, reference: r.clone(), observed: o.clone() });
         }
@@ -42,7 +42,7 @@ pub fn first_divergence(reference: &HostLog, log: &HostLog, host: usize) -> Opti
 /// Divergences *inside* one log: the same input expanded twice on one host.
 pub fn self_divergence(log: &HostLog, host: usize) -> Option<Divergence> {
     for (i, o) in log.obs.iter().enumerate() {
-        if let Some(r) = log.obs[..i].iter().find(|r| r.input == o.input) {
+        if let Some(r) = log.obs[..i].iter().find(|r| r.input == o.input && r.token_built == o.token_built) {
             if let Some(ch) = channel_of(r, o) {
                 return Some(Divergence { host, pos: o.pos, input: o.input, channel: ch, reference: r.clone(), observed: o.clone() });
             }
